@@ -60,16 +60,19 @@ Proof. exact order_perm. Qed.
    the goal accepts; an approximate report ends in a state the goal does not accept and that no added state beats;
    nothing is reported only when nothing was ever added *)
 Theorem C01_rrt_reports_only_real_paths :
-  forall (St D : Type) dist (dlt : D -> D -> bool) steer mv sat gdist goal_state (dflt : St),
+  forall (St D : Type) dist (dlt : D -> D -> bool) steer mv sat gdist (goal_state dflt : St),
   (forall a b c, dlt a b = true -> dlt b c = true -> dlt a c = true) -> (forall a, dlt a a = false) ->
   forall starts hits samples, starts <> [] ->
   let tree := fst (rrt_solve St D dist dlt steer mv sat gdist goal_state dflt starts hits samples) in
-  TInv St mv (length starts) starts tree /\
+  (forall i s, nth_error tree i = Some (s, None) -> (i < length starts)%nat /\ In s starts) /\
+  (forall i s p, nth_error tree i = Some (s, Some p) ->
+     (length starts <= i)%nat /\ (p < i)%nat /\ exists ps pp, nth_error tree p = Some (ps, pp) /\ mv ps s = true) /\
   match snd (rrt_solve St D dist dlt steer mv sat gdist goal_state dflt starts hits samples) with
   | Some (path, approx, dd) =>
       path <> [] /\ In (hd dflt path) starts /\ consecutive (fun a b => mv a b = true) path /\ dd = gdist (last path dflt) /\
-      (exists i, (length starts <= i < length tree)%nat /\ last path dflt = state_at St dflt tree i) /\
-      (if approx then sat (last path dflt) = false /\ forall j, (length starts <= j < length tree)%nat -> dlt (gdist (state_at St dflt tree j)) dd = false
+      (exists i, (length starts <= i < length tree)%nat /\ last path dflt = fst (nth i tree (dflt, None))) /\
+      (if approx then sat (last path dflt) = false /\
+                      forall j, (length starts <= j < length tree)%nat -> dlt (gdist (fst (nth j tree (dflt, None)))) dd = false
        else sat (last path dflt) = true)
   | None => tree = map (fun x => (x, None)) starts
   end.
